@@ -225,7 +225,7 @@ def check_step(cfg, hist_, ms, op):
                     st_a = W.state_of(o)
                     if st_a != mo.state:
                         sig = "%s: object %s -> %s, documented: %s" % (head, pre, st_a, mo.state)
-                        if pre_wasdel.get(n) and ms.objs[n].state in (T, PE):
+                        if pre_wasdel.get(n) and not ms.objs[n].wasdel and ms.objs[n].state != D:
                             sig = (
                                 "stale was_deleted: an object INSERTed and DELETEd inside a rolled-back transaction keeps "
                                 "InstanceState._deleted after it became transient; after the next INSERT it reports 'deleted'"
@@ -250,7 +250,8 @@ def check_step(cfg, hist_, ms, op):
                         continue
                     if mb["key"] != (mo.key,):
                         problems.append(
-                            ("%s: object %s keeps an identity key that is not its row's key in the surviving scope" % (head, describe(ms, n, op, keyinfo=True)),
+                            ("%s: object persistent%s keeps an identity key that is not its row's key in the surviving scope"
+                             % (head, "+key-switched-in-open-tx" if any(n in sc.switch for sc in ms.tx) else ""),
                              "identity key %r, surviving scope %r" % (mb["key"], (mo.key,)))
                         )
                         continue
@@ -360,6 +361,7 @@ def run_shard(shard, tier, rec):
                     DEPTH[tier][world],
                     jobs,
                     warm=[(cfg, WARM[world])],
+                    ctx=dict(world=world, eoc=eoc),
                 )
                 rec.count("depth completed %s eoc=%s" % (world, eoc), d)
     finally:
@@ -373,6 +375,8 @@ def _tuplify(x):
 
 
 def replay(case):
+    if case.get("kind") == "hang":  # recorded by the per-step watchdog: re-run the step without a limit
+        case = dict(case.get("ctx") or {}, history=case["history"], op=case["op"])
     gc.disable()
     try:
         cfg = make_cfg(case["world"], case["eoc"])
